@@ -131,8 +131,8 @@ func headerSpace(full bool) *space[hdr] {
 	add("ExtraData", 3, func(h *hdr, i int) { h.ExtraData = bytes3[i] })
 	if full {
 		add("GroupId", 3, func(h *hdr, i int) { h.GroupId = bytes3[i] })
-		add("Signature", 3, func(h *hdr, i int) { h.Signature = bytes3[i] })
-		add("Random", 3, func(h *hdr, i int) { h.Random = bytes3[i] })
+		// Signature and Random are plain byte fields outside GenHash(): varied jointly
+		add("Signature+Random", 3, func(h *hdr, i int) { h.Signature, h.Random = bytes3[i], bytes3[(i+1)%3] })
 	} else {
 		add("GroupId+Signature+Random", 3, func(h *hdr, i int) {
 			h.GroupId, h.Signature, h.Random = bytes3[i], bytes3[(i+1)%3], bytes3[(i+2)%3]
